@@ -237,7 +237,7 @@ func contentVariants(u *universe) []cvariant {
 	add("REGULAR", "payload-exactly-network-limit", expect, false, regular("lim", maxObjSize))
 	// TOMBSTONE
 	add("TOMBSTONE", "target-regular", expect, true, ts(u.ra.GetID()))
-	add("TOMBSTONE", "target-already-removed", expect, true, ts(u.rd.GetID()))
+	add("TOMBSTONE", "target-already-removed", expect, true, sysObject(object.TypeTombstone, u.rd.GetID(), future+1, nil))
 	add("TOMBSTONE", "target-split-parent", expect, true, ts(u.done.parent.GetID()))
 	add("TOMBSTONE", "target-child-of-open-chain", expect, true, ts(op.last.GetID()))
 	add("TOMBSTONE", "target-is-LOCK", expectNot, true, ts(u.lock0.GetID()))
